@@ -160,7 +160,13 @@ func runWorker(w, workers int, sel []Kind, seed uint64, tier string, scale float
 		hashes: map[string]map[uint64]bool{}, cases: map[string]int{}, tags: map[string]map[string]int{},
 		samples: map[string][]string{}, model: map[string]*modelStats{},
 	}
-	cmd := exec.Command(model, "-q")
+	// each model process runs under an address-space limit (default 12 GiB, VERIF_MODEL_MEM_KB overrides):
+	// a pathological evaluation then fails this run instead of exhausting the machine
+	lim := os.Getenv("VERIF_MODEL_MEM_KB")
+	if lim == "" {
+		lim = "12582912"
+	}
+	cmd := exec.Command("/bin/sh", "-c", "ulimit -v "+lim+" 2>/dev/null; exec \"$0\" -q", model)
 	stdin, err := cmd.StdinPipe()
 	if err != nil {
 		out.fail = err.Error()
@@ -200,7 +206,7 @@ func runWorker(w, workers int, sel []Kind, seed uint64, tier string, scale float
 				verdict = strings.Replace(verdict, "pred=f", "pred=t", 1)
 			}
 			switch {
-			case strings.Contains(verdict, "pred=f") && strings.Contains(verdict, "corr=eq") && !strings.Contains(verdict, "kf=-"):
+			case strings.Contains(verdict, "pred=f") && (strings.Contains(verdict, "corr=eq") || strings.Contains(verdict, " kfx=t")) && !strings.Contains(verdict, "kf=-"):
 				prio = 3
 			case strings.Contains(verdict, "pred=f"):
 				prio = 0
